@@ -100,12 +100,12 @@ def mk(name, kind, exc=0, idtext=None, msg=None):
     return t
 
 
-def run_world(tests, rep2):
+def run_world(tests, rep2, buf=False):
     W.reset()
     FILES.clear()
     with untraced():
         A = W.mk_layer('A', (), hooks='')
-        o = RW.options(['--repeat', '2'] if rep2 else [])
+        o = RW.options((['--repeat', '2'] if rep2 else []) + (['--buffer'] if buf else []))
     name_from_layer(A)
     delegate = o.output
     o.output = FM.XMLOutputFormattingWrapper(delegate, folder=FakeFolder())
@@ -114,19 +114,19 @@ def run_world(tests, rep2):
     return o
 
 
-def report(k0, k1, k2, rep2, e1):
+def report(k0, k1, k2, rep2, e1, buf=False):
     global LAST
     ks = [pick(KINDS, k) for k in (k0, k1, k2)]
-    rep2 = cb(rep2)
+    rep2, buf = cb(rep2), cb(buf)
     e1 = ci(e1, 0, 3)
     with untraced():
         tests = [mk('t0', ks[0]), mk('t1', ks[1], exc=e1), mk('t2', ks[2])]
     R.TestResult._exc_info_to_string = lambda self, err, test: 'traceback'
-    o = run_world(tests, rep2)
+    o = run_world(tests, rep2, buf)
     o.output.writeXMLReports()
     with untraced():
         why = oracle(ks, rep2)
-    LAST = (tuple(W.KIND_NAMES[k] for k in ks), rep2, e1, why, tuple(sorted(FILES)))
+    LAST = (tuple(W.KIND_NAMES[k] for k in ks), rep2, e1, why, tuple(sorted(FILES)), buf)
     return why is None
 
 
@@ -332,14 +332,14 @@ def extra_evidence(tier):
     return {'lemma_L_XMLCLASS': lem}
 
 
-_P = [('k0', 'int'), ('k1', 'int'), ('k2', 'int'), ('rep2', 'bool'), ('e1', 'int')]
+_P = [('k0', 'int'), ('k1', 'int'), ('k2', 'int'), ('rep2', 'bool'), ('e1', 'int'), ('buf', 'bool')]
 _C = ', '.join(n for n, _ in _P)
 _NK = len(KINDS)
 _B = '0 <= k0 < %d and 0 <= k1 < %d and 0 <= k2 < %d and 0 <= e1 <= 3' % (_NK, _NK, _NK)
 
 
 def _v(**kw):
-    v = dict(k0=0, k1=1, k2=2, rep2=False, e1=0)
+    v = dict(k0=0, k1=1, k2=2, rep2=False, e1=0, buf=False)
     v.update(kw)
     return v
 
@@ -359,12 +359,12 @@ SPEC = {
                 'more than 3 tests'],
     'harnesses': [
         {'name': 'report', 'fn': 'report', 'params': _P, 'call': _C,
-         'bounds': {'quick': _B + ' and e1 == 0 and k2 == 0 and (k1 <= 1 or not rep2)', 'thorough': _B + ' and (e1 == 0 or k1 == 2)'},
+         'bounds': {'quick': _B + ' and e1 == 0 and k2 == 0 and (k1 <= 1 or not rep2) and (not buf or not rep2)', 'thorough': _B + ' and (e1 == 0 or k1 == 2)'},
          'slices': {'quick': ['k0 == %d' % k for k in range(_NK)],
                     'thorough': ['k0 == %d and k1 == %d' % (k, j) for k in range(_NK) for j in range(_NK)]},
          'reach': 'report_reach', 'reach_bounds': {'quick': _B + ' and e1 == 0 and not rep2 and k0 == 6 and k1 == 3', 'thorough': _B + ' and e1 == 0 and not rep2 and k0 == 6 and k1 == 3'},
          'timeout': {'quick': 300, 'thorough': 1500},
-         'fidelity': [_v(), _v(k0=6, k1=3, k2=7, rep2=True), _v(k0=8, k1=9, k2=10, e1=3)]},
+         'fidelity': [_v(), _v(k0=6, k1=3, k2=7, rep2=True), _v(k0=8, k1=9, k2=10, e1=3), _v(k0=1, k1=6, k2=2, buf=True)]},
         {'name': 'chars', 'fn': 'chars_pool', 'params': [('n', 'int'), ('i', 'int'), ('j', 'int'), ('where', 'int'), ('kind', 'int')], 'call': 'n, i, j, where, kind',
          'bounds': {'quick': '0 <= n <= 1 and 0 <= i < %d and j == 0 and 0 <= where <= 2 and 0 <= kind <= 2' % len(POOL),
                     'thorough': '0 <= n <= 2 and 0 <= i < %d and 0 <= j < %d and (n == 2 or j == 0) and 0 <= where <= 1 and 0 <= kind <= 1' % (len(POOL), len(POOL))},
